@@ -139,6 +139,12 @@ Theorem immutable_blocks_mutators : forall T m, In m (gen_public T) -> mutates T
 Proof. apply blocks_ok_sound. vm_compute. reflexivity. Qed.
 Print Assumptions immutable_blocks_mutators.
 
+(* ... and a bound mutating method that reaches the template as data is refused by the call gate *)
+Theorem immutable_refuses_stored_mutators : forall T m, In m (gen_public T) -> mutates T m = true ->
+  immutable_is_safe_callable gen_spec T m = false.
+Proof. apply calls_ok_sound. vm_compute. reflexivity. Qed.
+Print Assumptions immutable_refuses_stored_mutators.
+
 (* the domain is not empty: every type has a public mutating method, and a non-mutating one
    that stays available *)
 Theorem domain_nonvacuous : forallb (fun T => existsb (mutates T) (gen_public T)
@@ -146,7 +152,7 @@ Theorem domain_nonvacuous : forallb (fun T => existsb (mutates T) (gen_public T)
   all_btypes = true.
 Proof. vm_compute. reflexivity. Qed.
 """
-        ok, out = ctx.coq_obligation("SbxGenC19", v, n_obligations=2)
+        ok, out = ctx.coq_obligation("SbxGenC19", v, n_obligations=3)
         if ok:
             ctx.trusted.append("immutable_blocks_mutators (regenerated): " + " ".join(out.split()))
     try:
@@ -251,6 +257,9 @@ PATHS = {
     "host-ref-loop": "{%% for g in hml %%}{{ g(%(a)s) }}{%% endfor %%}",
     "host-ref-macro": "{%% macro call(g) %%}{{ g(%(a)s) }}{%% endmacro %%}{{ call(hmd['f']) }}",
 }
+# the async immutable sandbox runs every path in the thorough tier and this core set in the quick tier
+ASYNC_QUICK_PATHS = ("dot", "subscript", "attr-filter", "map-attribute", "set-alias", "deep-dot", "deep-map-dotted", "host-ref",
+                     "host-ref-dict", "format-attr", "format-deep")
 HOST_REF_PATHS = ("host-ref", "host-ref-dict", "host-ref-list", "host-ref-alias", "host-ref-loop", "host-ref-macro")
 FORMAT_PATHS = {
     "format-deep": "{{ '{0.data[inner].c.%(m)s}'.format(deep) }}",
@@ -436,7 +445,7 @@ def run(ctx):
     ctx.proof("C19")
     # T5: the current source of modifies_known_mutable, is_internal_attribute and both
     # is_safe_attribute methods, interpreted in Coq, equals the model functions for every argument
-    sbx_src_tie.source_equations(ctx, ("mkm", "internal", "safe", "imm", "access"))
+    sbx_src_tie.source_equations(ctx, ("mkm", "internal", "safe", "imm", "access", "immcall"))
     facts, flagged = regenerate(ctx)
     from jinja2 import sandbox as sb
     envs = make_envs()
@@ -502,6 +511,8 @@ def run(ctx):
                 case = {"kind": "method", "T": T, "m": m, "args": ai, "variant": variant, "path": path, "mode": mode,
                         "order": "plain-first" if idx % 2 == 0 else "immutable-first"}
                 nontriv = bool(bits and bits["spec"]) or (T, m) in observed and observed[(T, m)][0]
+                if ctx.tier != "thorough" and mode == "async" and path not in ASYNC_QUICK_PATHS:
+                    continue
                 if path in HOST_REF_PATHS and (m in DUNDER_MUTATORS or not callable(getattr(PY_OF[T], m, None))):
                     continue      # host-supplied references: the public methods of the four types
                 # a host-supplied bound method never passes through attribute access: the immutable call gate
